@@ -4,3 +4,4 @@ pub mod oracle;
 pub mod props;
 pub mod regress;
 pub mod rinkx;
+pub mod worker;
